@@ -40,9 +40,32 @@ def fam_stats_mix(g):
 hist.FAMILIES.setdefault("stats_mix", fam_stats_mix)
 
 
-def check_stats(ex, repo, commit, notes):
+def check_stats(ex, repo, commit, notes, extra_ignore=None):
     w = ex.w
-    r = w.gitai(repo, "stats", commit, "--json")
+    global is_ignored
+    base_ignored = is_ignored
+    if extra_ignore:
+        is_ignored = lambda p: base_ignored(p) or p == extra_ignore
+        try:
+            return _check_stats(ex, repo, commit, notes, ["--ignore", extra_ignore])
+        finally:
+            is_ignored = base_ignored
+    v = _check_stats(ex, repo, commit, notes, [])
+    if v:
+        return v
+    # the same identities with one more file ignored at stats time
+    parsed = notes.parsed(commit)
+    if parsed and not isinstance(parsed, noteparse.NoteError):
+        cands = sorted(p for p in parsed["files"] if not base_ignored(p) and " " not in p and not p.startswith("-"))
+        if cands:
+            ex.probe("stats.ignore_option")
+            return check_stats(ex, repo, commit, notes, extra_ignore=cands[0])
+    return None
+
+
+def _check_stats(ex, repo, commit, notes, extra_args):
+    w = ex.w
+    r = w.gitai(repo, "stats", commit, "--json", *extra_args)
     if r.code != 0:
         return {"monitor": "stats.identities", "class": "stats_failed", "detail": {"commit": commit, "err": r.err[-300:]}}
     try:
@@ -95,9 +118,14 @@ def check_stats(ex, repo, commit, notes):
         return {"monitor": "stats.identities", "class": "ai_additions_exceed_added", "detail": detail}
     # 5. breakdown sums
     bd = st.get("tool_model_breakdown") or {}
+    if extra_args:
+        detail["ignore_option"] = extra_args[1]
+        if "stats_ignore_breakdown" in (ex.trace.get("cfg", {}).get("gates") or []):
+            bd = {}       # known finding: the per-tool breakdown does not honour --ignore
+            ex.probe("stats.breakdown_skipped_known")
     for key in ("ai_additions", "mixed_additions", "ai_accepted", "total_ai_additions", "total_ai_deletions"):
         s = sum(v.get(key, 0) for v in bd.values())
-        if s != st.get(key, 0):
+        if bd and s != st.get(key, 0):
             detail["breakdown_sum"] = {key: s}
             return {"monitor": "stats.identities", "class": "breakdown_does_not_sum_" + key, "detail": detail}
     ex.probe("stats.checked")
